@@ -25,6 +25,7 @@ package cmd
 //@   assigns ghost(rand_count), ghost(rand_last), ghost(rand_range)
 //@   call math/rand.Intn [draw_among_all_elements_seen_so_far] a0 == rangeindex + 2
 //@   loop 1
+//@     complete [all_iterations_no_early_exit]
 //@     assigns elems(sampled), ghost(rand_count), ghost(rand_last), ghost(rand_range)
 //@     invariant [count] total == rangeindex + 1 && rangeindex >= -1
 //@     invariant [reservoir_is_the_result_slice] sampled == lold(sampled) && len(sampled) == n
@@ -64,6 +65,7 @@ package cmd
 //@   flag noframe
 //@   call math/rand.Intn [draw_among_all_elements_seen_so_far] replace ? a0 == totaltrees : a0 == totaltrees + 1
 //@   loop 1
+//@     complete [all_iterations_no_early_exit]
 //@     invariant [count] totaltrees >= 0
 //@     invariant [reservoir_size] len(outtrees) == numtrees
 //@     step [every_tree_read_is_counted_as_seen] next(totaltrees) == totaltrees + 1
@@ -72,11 +74,14 @@ package cmd
 //@     step [replace_phase_hit] totaltrees >= numtrees && ghost(rand_last) < numtrees ==> outtrees[ghost(rand_last)] == t.Tree && (forall k int :: 0 <= k && k < numtrees && k != ghost(rand_last) ==> outtrees[k] == atHead(outtrees[k]))
 //@     step [replace_phase_miss] totaltrees >= numtrees && ghost(rand_last) >= numtrees ==> (forall k int :: 0 <= k && k < numtrees ==> outtrees[k] == atHead(outtrees[k]))
 //@   loop 2
+//@     complete [all_iterations_no_early_exit]
 //@     invariant [count] totaltrees >= 0
 //@     invariant [reservoir_size] len(outtrees) == numtrees
 //@   loop 2
+//@     complete [all_iterations_no_early_exit]
 //@     step [every_tree_read_is_counted_as_seen_with_replacement] next(totaltrees) == totaltrees + 1
 //@   loop 3
+//@     complete [all_iterations_no_early_exit]
 //@     invariant [slot_range] j >= 0 && totaltrees >= 1 && len(outtrees) == numtrees
 //@     step [one_draw_per_slot_among_all_seen] ghost(rand_count) == atHead(ghost(rand_count)) + 1 && ghost(rand_range) == totaltrees
 //@     step [slot_replaced_iff_draw_is_zero] (ghost(rand_last) == 0 ? outtrees[j] == t.Tree : outtrees[j] == atHead(outtrees[j])) && (forall k int :: 0 <= k && k < numtrees && k != j ==> outtrees[k] == atHead(outtrees[k]))
@@ -98,8 +103,10 @@ package cmd
 //@   call fmt.Printf@L8 [rf_is_the_sum_of_the_two_specific_counts] a0 == "%d\n" && len(a1) == 1 && iref(a1[0]) == st.Tree1 + st.Tree2
 //@   call fmt.Printf@L10 [identifier_then_reference_common_compared] a0 == "%d\t%d\t%d\t%d\n" && len(a1) == 4 && iref(a1[0]) == st.Id && iref(a1[1]) == st.Tree1 && iref(a1[2]) == st.Common && iref(a1[3]) == st.Tree2
 //@   loop 3
+//@     complete [all_iterations_no_early_exit]
 //@     step [a_common_branch_adds_the_absolute_difference_and_its_square] next(wrf) == wrf + abs(diff) && next(kf) == kf + mathpow(diff, 2.0)
 //@   loop 5
+//@     complete [all_iterations_no_early_exit]
 //@     step [a_specific_branch_adds_its_length_and_its_square] next(wrf) == wrf + length && next(kf) == kf + mathpow(length, 2.0)
 
 // ---------------------------------------------------------------------------
@@ -127,9 +134,11 @@ package cmd
 //@   requires ref != nil && comp != nil && INV12()
 //@   return [only_names_of_reference_tips_absent_from_the_compared_tree] forall k int :: {result0[k]} 0 <= k && k < len(result0) ==> !has(compmap, result0[k])
 //@   loop 1
+//@     complete [all_iterations_no_early_exit]
 //@     invariant [compared_tip_names_registered_so_far] compmap != nil
 //@     step [only_the_names_of_tips_of_the_compared_tree_are_registered] (len(n.neigh) == 1 ==> has(compmap, n.name)) && (forall s string :: {has(compmap, s)} (len(n.neigh) != 1 || s != n.name) ==> has(compmap, s) == atHead(has(compmap, s)))
 //@   loop 2
+//@     complete [all_iterations_no_early_exit]
 //@     invariant [only_absent_names_collected] compmap != nil && (forall k int :: {spectips[k]} 0 <= k && k < len(spectips) ==> !has(compmap, spectips[k]))
 //@     step [a_reference_tip_is_collected_exactly_when_its_name_is_absent] len(next(spectips)) == len(spectips) + ((len(n.neigh) == 1 && !has(compmap, n.name)) ? 1 : 0) && ((len(n.neigh) == 1 && !has(compmap, n.name)) ==> next(spectips)[len(spectips)] == n.name)
 
@@ -142,6 +151,7 @@ package cmd
 //@   flag noframe
 //@   flag countcalls
 //@   loop 1
+//@     complete [all_iterations_no_early_exit]
 //@     step [the_specific_tips_are_recomputed_for_every_tree_read] tipfile == "none" && comptree != nil && reftree.Err == nil ==> ghost(ncalls_specificTips) == atHead(ghost(ncalls_specificTips)) + 1
 //@   recv treechan [message_is_a_tree_or_an_error] msg.Err == nil ==> msg.Tree != nil
 //@   call (*tree.Tree).RemoveTips [on_the_tree_just_read_with_revert_as_given] a0 == reftree.Tree && a1 == revert
@@ -163,6 +173,7 @@ package cmd
 //@   call (*tree.Tree).CollapseTopoDepth [the_tree_just_read_with_the_depth_window_and_the_two_switches_each_in_its_place] a0 == t.Tree && t.Err == nil && a1 == mindepthThreshold && a2 == maxdepthThreshold && a3 == collapseDepthRoot && a4 == collapseDepthTips
 //@   call (*tree.Tree).Newick [the_tree_written_is_the_tree_just_collapsed] a0 == t.Tree && ghost(ncalls_CollapseTopoDepth) == atHead(ghost(ncalls_CollapseTopoDepth)) + 1
 //@   loop 1
+//@     complete [all_iterations_no_early_exit]
 //@     step [every_tree_read_is_collapsed_once_and_written_once] ghost(ncalls_CollapseTopoDepth) == atHead(ghost(ncalls_CollapseTopoDepth)) + 1 && ghost(ncalls_WriteString) == atHead(ghost(ncalls_WriteString)) + 1
 
 //@ func cmd.collapsebrlenCmd.RunE
@@ -172,6 +183,7 @@ package cmd
 //@   call (*tree.Tree).CollapseShortBranches [the_tree_just_read_with_the_length_threshold_and_the_two_switches_each_in_its_place] a0 == t.Tree && t.Err == nil && a1 == shortbranchesThreshold && a2 == shortbranchesRemoveRoot && a3 == shortbranchesRemoveTips
 //@   call (*tree.Tree).Newick [the_tree_written_is_the_tree_just_collapsed] a0 == t.Tree && ghost(ncalls_CollapseShortBranches) == atHead(ghost(ncalls_CollapseShortBranches)) + 1
 //@   loop 1
+//@     complete [all_iterations_no_early_exit]
 //@     step [every_tree_read_is_collapsed_once_and_written_once] ghost(ncalls_CollapseShortBranches) == atHead(ghost(ncalls_CollapseShortBranches)) + 1 && ghost(ncalls_WriteString) == atHead(ghost(ncalls_WriteString)) + 1
 
 //@ func cmd.collapsesupportCmd.RunE
@@ -181,6 +193,7 @@ package cmd
 //@   call (*tree.Tree).CollapseLowSupport [the_tree_just_read_with_the_support_threshold_and_the_root_switch] a0 == t.Tree && t.Err == nil && a1 == lowSupportThreshold && a2 == supportRemoveRoot
 //@   call (*tree.Tree).Newick [the_tree_written_is_the_tree_just_collapsed] a0 == t.Tree && ghost(ncalls_CollapseLowSupport) == atHead(ghost(ncalls_CollapseLowSupport)) + 1
 //@   loop 1
+//@     complete [all_iterations_no_early_exit]
 //@     step [every_tree_read_is_collapsed_once_and_written_once] ghost(ncalls_CollapseLowSupport) == atHead(ghost(ncalls_CollapseLowSupport)) + 1 && ghost(ncalls_WriteString) == atHead(ghost(ncalls_WriteString)) + 1
 
 //@ func cmd.resolveCmd.RunE
@@ -190,6 +203,7 @@ package cmd
 //@   call (*tree.Tree).Resolve [the_tree_just_read] a0 == tr.Tree && tr.Err == nil
 //@   call (*tree.Tree).Newick [the_tree_written_is_the_tree_just_resolved] a0 == tr.Tree && ghost(ncalls_Resolve) == atHead(ghost(ncalls_Resolve)) + 1
 //@   loop 1
+//@     complete [all_iterations_no_early_exit]
 //@     step [every_tree_read_is_resolved_once_and_written_once] ghost(ncalls_Resolve) == atHead(ghost(ncalls_Resolve)) + 1 && ghost(ncalls_WriteString) == atHead(ghost(ncalls_WriteString)) + 1
 
 //@ func cmd.collapsesingleCmd.RunE
@@ -199,4 +213,5 @@ package cmd
 //@   call (*tree.Tree).RemoveSingleNodes [the_tree_just_read] a0 == t.Tree && t.Err == nil
 //@   call (*tree.Tree).Newick [the_tree_written_is_the_tree_just_edited] a0 == t.Tree && ghost(ncalls_RemoveSingleNodes) == atHead(ghost(ncalls_RemoveSingleNodes)) + 1
 //@   loop 1
+//@     complete [all_iterations_no_early_exit]
 //@     step [every_tree_read_is_edited_once_and_written_once] ghost(ncalls_RemoveSingleNodes) == atHead(ghost(ncalls_RemoveSingleNodes)) + 1 && ghost(ncalls_WriteString) == atHead(ghost(ncalls_WriteString)) + 1
